@@ -165,6 +165,9 @@ def main():
             i += 1; patch_dir = args[i]
         elif args[i] == "--index":
             i += 1; index_path = args[i]
+        elif args[i] == "--scratch":
+            i += 1
+            globals()["SCRATCH"] = args[i]
         elif args[i] == "--harness-rev":
             i += 1; HARNESS_REV = args[i]
         i += 1
